@@ -32,6 +32,8 @@ type cfg struct {
 	post           []reqSpec // injected after restart
 	flushAt        int       // cycle of the flush injection; 0 = none
 	restartDelay   int
+	flush2At       int       // second flush this many cycles after the first restart was acknowledged; 0 = none
+	post2          []reqSpec // injected after the second restart
 }
 
 type sendHook struct{ f func(m sim.Msg) }
@@ -89,8 +91,9 @@ func body(c cfg) explore.Body {
 		byID := map[string]*acc{}
 		nextFwd := 0     // index into accepted of next expected forward
 		occupancy := 0   // forwards - retires, from port send hooks
-		flushed := false // discard ack sent
+		flushed := false // a discard ack was sent and the following restart ack was not yet
 		restarted := false
+		nCtlAcks := 0
 		var trace bytes.Buffer
 
 		// hooks on the component's own ports: exact time of forward / retire
@@ -182,8 +185,9 @@ func body(c cfg) explore.Body {
 			}
 		}})
 		ctl.AcceptHook(sendHook{func(m sim.Msg) {
-			if !flushed {
-				flushed = true
+			nCtlAcks++
+			if nCtlAcks%2 == 1 {
+				flushed, restarted = true, false
 				for _, a := range accepted {
 					if !a.answered {
 						a.discarded = true
@@ -248,18 +252,24 @@ func body(c cfg) explore.Body {
 		ctlF := &world.Feeder{W: w, Port: ctl, Tag: "ctl"}
 		ctlSink := &world.Sink{W: w, Port: ctl, Tag: "ctl", NoChoice: true}
 		acks := 0
+		flush2Due := 0
 		ctlSink.Handle = func(m sim.Msg) {
 			acks++
-			if acks == 1 {
+			if acks%2 == 1 {
 				ctlF.Add(mem.ControlMsgBuilder{}.WithSrc(ctlName).WithDst(ctl.AsRemote()).ToRestart().Build(), false)
 				ctlF.Q[len(ctlF.Q)-1].Ready += c.restartDelay
 			} else if acks == 2 {
 				for i, s := range c.post {
 					src.Add(mkReq(s, 8+i, reqName, top.AsRemote()), true)
 				}
+				flush2Due = w.Cycle() + c.flush2At
+			} else if acks == 4 {
+				for i, s := range c.post2 {
+					src.Add(mkReq(s, 12+i, reqName, top.AsRemote()), true)
+				}
 			}
 		}
-		flushSent := false
+		flushSent, flush2Sent := false, false
 		w.Step = func() bool {
 			pending := false
 			if c.flushAt > 0 && !flushSent {
@@ -270,11 +280,19 @@ func body(c cfg) explore.Body {
 				}
 				pending = true
 			}
+			if c.flush2At > 0 && !flush2Sent {
+				if acks >= 2 && w.Cycle() >= flush2Due {
+					flush2Sent = true
+					ctlF.Add(mem.ControlMsgBuilder{}.WithSrc(ctlName).WithDst(ctl.AsRemote()).ToDiscardTransactions().Build(), false)
+					ctlF.Q[len(ctlF.Q)-1].Ready = w.Cycle()
+				}
+				pending = true
+			}
 			pending = ctlSink.Step(1) || pending
 			pending = topSink.Step(2*c.width) || pending
 			pending = botSink.Step(2*c.width) || pending
 			pending = ctlF.Step(1) || pending
-			if !(flushSent && acks < 2) { // requester is paused during a flush
+			if !(flushSent && acks < 2) && !(flush2Sent && acks < 4) { // requester is paused during a flush
 				pending = src.Step(c.width) || pending
 			} else {
 				pending = true
@@ -298,8 +316,13 @@ func body(c cfg) explore.Body {
 		want := len(c.stream)
 		if c.flushAt > 0 {
 			want += len(c.post)
-			if acks != 2 {
-				return explore.Viol("flush-not-acknowledged", "control acks=%d", acks)
+			wantAcks := 2
+			if c.flush2At > 0 {
+				want += len(c.post2)
+				wantAcks = 4
+			}
+			if acks != wantAcks {
+				return explore.Viol("flush-not-acknowledged", "control acks=%d want %d", acks, wantAcks)
 			}
 		}
 		if len(accepted) != want {
@@ -356,6 +379,27 @@ func main() {
 		}
 		add(fmt.Sprintf("stream1/buf3/width2/flush@%d/restart+0", fa),
 			cfg{bufSize: 3, width: 2, stream: streams[1], post: post, flushAt: fa}, bound-1)
+	}
+	// two flush/restart rounds: the second flush meets a buffer that has already been flushed and restarted once and is
+	// serving the traffic injected after the first restart
+	post2 := []reqSpec{{true, 0x300, 8, 2, false}, {false, 0x300, 8, 2, false}}
+	flush2 := []int{2, 4}
+	first := []int{3, 5}
+	if r.Thorough() {
+		flush2 = []int{1, 2, 3, 4, 5, 7}
+		first = []int{2, 3, 4, 5, 6, 8}
+	}
+	for _, fa := range first {
+		for _, f2 := range flush2 {
+			for _, bs := range []int{1, 2} {
+				add(fmt.Sprintf("stream0/buf%d/width1/flush@%d/restart+0/flush2@+%d", bs, fa, f2),
+					cfg{bufSize: bs, width: 1, stream: streams[0], post: post, flushAt: fa, flush2At: f2, post2: post2}, bound-1)
+			}
+			if r.Thorough() {
+				add(fmt.Sprintf("stream1/buf3/width2/flush@%d/restart+3/flush2@+%d", fa, f2),
+					cfg{bufSize: 3, width: 2, stream: streams[1], post: post, flushAt: fa, restartDelay: 3, flush2At: f2, post2: post2}, bound-2)
+			}
+		}
 	}
 	r.Assume = []string{
 		"requester sends no new request between the flush request and the restart acknowledgement (the CP pauses CUs first)",
